@@ -125,7 +125,7 @@ def make_cloud(rng: PlanRng, dim, cls):
     elif cls == "small_units":
         # an ordinary cloud expressed in small units (simplex volumes around 1e-9..1e-6, some
         # cells much smaller than others): absolute tolerances in the code show up here
-        Pm = rng.g.normal(size=(m, dim)) * float(rng.choice([3e-2, 1e-2, 3e-3]))
+        Pm = rng.g.normal(size=(m, dim)) * float(rng.choice([3e-2, 1e-2, 3e-3, 1e-5, 1e-7]))
         Pm[: m // 3] *= 0.15
         return sig(Pm)
     elif cls == "flat":
@@ -653,14 +653,19 @@ def execute(plan):
                                         f"facets", call=c, op=oi, l1_requested=False,
                                         l1_covers_all_chromaticities=True)
             else:
-                worst, h = facet_violation(Sm, Pm)
-                if worst > 1e-9 * max(1.0, float(np.max(np.abs(Pm)))):
+                # the oracles work in the cloud's own unit (centred, extent 1): clouds come at
+                # scales from 1e-7 to 40 and neither qhull's nor HiGHS's tolerances are relative
+                ctr_ = Pm.mean(0)
+                ext_ = float(np.max(np.abs(Pm - ctr_))) or 1.0
+                Pn_, Sn_ = (Pm - ctr_) / ext_, (Sm - ctr_) / ext_
+                worst, h = facet_violation(Sn_, Pn_)
+                if worst > 1e-9:
                     raise Violation(ID, "sample_outside_hull",
-                                    f"a sample of {c} lies {worst:.3g} outside the hull's facets",
-                                    call=c, op=oi)
+                                    f"a sample of {c} lies {worst:.3g} (in units of the cloud's "
+                                    f"extent) outside the hull's facets", call=c, op=oi)
                 idx = np.linspace(0, n - 1, min(n, 12)).astype(int)
                 for i in idx:
-                    ok, res = lp_in_hull(Sm[i], Pm)
+                    ok, res = lp_in_hull(Sn_[i], Pn_)
                     if not ok:
                         raise Violation(ID, "sample_outside_hull",
                                         f"sample {i} of {c} is not a convex combination of the "
@@ -698,6 +703,10 @@ def execute(plan):
             if c.get("uniform"):
                 nontrivial = True
                 Pts = Q if c["t"] == "est" else Pm
+                ctr_ = Pts.mean(0)
+                ext_ = float(np.max(np.abs(Pts - ctr_))) or 1.0
+                Pts = (Pts - ctr_) / ext_
+                Sm = (Sm - ctr_) / ext_          # (Sm is not used below this block)
                 if c["t"] == "est" and ub is None:
                     bump("uniformity_skipped_unbounded")
                 else:
